@@ -146,7 +146,7 @@ func BlockFromProto(block *Block) *hotstuff.Block {
 		hotstuff.View(block.GetView()),
 		hotstuff.ID(block.GetProposer()),
 	)
-	b.SetTimestamp(block.Timestamp.AsTime())
+	b.SetTimestamp(block.GetTimestamp().AsTime())
 	return b
 }
 
